@@ -2,6 +2,7 @@ package props
 
 import (
 	"go/ast"
+	"go/token"
 	"go/types"
 	"os"
 	"strings"
@@ -140,12 +141,63 @@ func runC15(c *core.Ctx) {
 		fn := c.Prog.Func(cp, "(*scanner).readInlineImage")
 		g := fn.Graph()
 		info := fn.Info()
-		prev := localVar(fn, "prevByte", 0)
+		// the previous-byte state, by its role: the variable compared with CR or LF
+		// in the condition under which checkEI is consulted
+		var prev types.Object
+		var prevID *ast.Ident
+		for _, cv := range callVertices(g, cp+".(*scanner).checkEI") {
+			look := func(e ast.Expr) {
+				ast.Inspect(e, func(n ast.Node) bool {
+					be, ok := n.(*ast.BinaryExpr)
+					if !ok || (be.Op != token.EQL && be.Op != token.NEQ) {
+						return true
+					}
+					for _, pr := range [][2]ast.Expr{{be.X, be.Y}, {be.Y, be.X}} {
+						id, isID := ast.Unparen(pr[0]).(*ast.Ident)
+						k, isK := core.IntConst(info, pr[1])
+						if isID && isK && (k == '\r' || k == '\n') {
+							if v, isVar := info.ObjectOf(id).(*types.Var); isVar && !v.IsField() {
+								prev, prevID = v, id
+							}
+						}
+					}
+					return true
+				})
+			}
+			for _, a := range g.DominatingAtoms(cv.V) {
+				look(a.Expr)
+			}
+			if cv.V.Cond != nil && cv.V.Cond.Expr != nil {
+				look(cv.V.Cond.Expr)
+			}
+		}
+		if !o.Shape(prev != nil, "the variable holding the byte before a possible EI was not found (no comparison with CR/LF in front of checkEI)") {
+			return
+		}
 		env := byteEnvFor(c.Prog, fn, prev)
-		// the trim statement
+		// the trim statement: v = v[:len(v)-1]
 		var trim *core.V
 		for _, v := range g.Vs {
-			if as, ok := v.AST.(*ast.AssignStmt); ok && c.Prog.Src(as) == "imageData=imageData[:len(imageData)-1]" {
+			as, ok := v.AST.(*ast.AssignStmt)
+			if !ok || len(as.Lhs) != 1 || len(as.Rhs) != 1 {
+				continue
+			}
+			lhs := strings.ReplaceAll(core.ExprStr(as.Lhs[0]), " ", "")
+			isTrim := strings.ReplaceAll(core.ExprStr(as.Rhs[0]), " ", "") == lhs+"[:len("+lhs+")-1]"
+			if se, isSl := ast.Unparen(as.Rhs[0]).(*ast.SliceExpr); isSl && !isTrim && se.Low == nil && se.High != nil && strings.ReplaceAll(core.ExprStr(se.X), " ", "") == lhs {
+				// v = v[:n-1] where n is len(v)
+				if be, isBin := ast.Unparen(se.High).(*ast.BinaryExpr); isBin && be.Op == token.SUB {
+					if k, isK := core.IntConst(info, be.Y); isK && k == 1 {
+						isTrim = true
+						for _, vc := range valueCases(g, v, be.X, 2) {
+							if strings.ReplaceAll(core.ExprStr(vc.Expr), " ", "") != "len("+lhs+")" {
+								isTrim = false
+							}
+						}
+					}
+				}
+			}
+			if isTrim {
 				trim = v
 				o.At(fn.Site(as, "drops the EOL before EI"))
 			}
@@ -170,6 +222,20 @@ func runC15(c *core.Ctx) {
 		o.Fact("EI accepted after bytes %s", set.String())
 		if !set.Equal(core.BytesOf("\r\n")) {
 			o.Fail("'EI' ends the image after the bytes %s; the writer emits exactly one LF before EI and data may contain 'EI' after any other byte, so the accepted set must be {CR, LF}", set.String())
+		}
+		// before the first data byte is read the state is not an EOL: the data
+		// may begin with "EI", and the white space after ID is not part of it
+		inLoop := naturalLoop(g, head)
+		for _, vc := range valueCases(g, head, prevID, 3) {
+			if vc.V != nil && inLoop[vc.V] && vc.V != head {
+				continue
+			}
+			k, isK := core.IntConst(info, vc.Expr)
+			if !isK {
+				o.Fail("the search for EI starts with %s as the byte before the data: when that is CR or LF, image data that begins with 'EI' is taken for the end of the image", core.ExprStr(vc.Expr))
+			} else if k == '\r' || k == '\n' {
+				o.Fail("the search for EI starts with an end-of-line as the byte before the data")
+			}
 		}
 		// checkEI is called on that edge
 		ce := callVertices(g, cp+".(*scanner).checkEI")
@@ -307,7 +373,15 @@ func rulePublishedNotRecycled(c *core.Ctx, rule string, pkgs ...string) {
 			}
 			isZeroReslice := func(e ast.Expr) bool {
 				sl, ok := ast.Unparen(e).(*ast.SliceExpr)
-				if !ok || sl.High == nil {
+				if !ok {
+					return false
+				}
+				if sl.High == nil {
+					// x[len(x):]: empty as well, and what is appended next lands in
+					// the spare capacity that the holder of x appends into too
+					if call, isCall := ast.Unparen(sl.Low).(*ast.CallExpr); sl.Low != nil && isCall && core.CalleeKey(info, call) == "builtin.len" && len(call.Args) == 1 {
+						return strings.ReplaceAll(core.ExprStr(call.Args[0]), " ", "") == strings.ReplaceAll(core.ExprStr(sl.X), " ", "")
+					}
 					return false
 				}
 				k, isK := core.IntConst(info, sl.High)
